@@ -156,6 +156,12 @@ func openConn(kind string) (*cliConn, bool) {
 	case "badpw":
 		cfg.User = "DTAIL-HEALTH"
 		cfg.Auth = []gossh.AuthMethod{gossh.Password("wrong")}
+	case "key_nouser": // a user the operating system does not know and nobody cached keys for
+		cfg.User = "no-such-user-c14"
+		cfg.Auth = []gossh.AuthMethod{gossh.PublicKeys(connSigner)}
+	case "key_osuser": // an operating-system user without cached keys: the key file is looked up in its home directory
+		cfg.User = "daemon"
+		cfg.Auth = []gossh.AuthMethod{gossh.PublicKeys(connSigner)}
 	case "health", "health_nochan":
 		cfg.User = "DTAIL-HEALTH"
 		cfg.Auth = []gossh.AuthMethod{gossh.Password("DTAIL-HEALTH")}
